@@ -162,16 +162,21 @@ func bgvLeaf(c *engine.Chooser, scName string, cfg *bgvCfg) {
 		tgtScale = 7
 	}
 	declare := sh.parity != 0 && (cfg.declared || c.Bool("declareParity"))
+	nilHoles := c.Bool("nilHoles") // zero coefficients handed over as nil (absent) coefficients
 	mode := "standard"
 	if cfg.invariant {
 		mode = "invariant"
 	}
-	desc := fmt.Sprintf("bgv/%s %s kind=%d entry=%s level=%d(need %d, max %d) inScale=%d targetScale=%d declareParity=%v",
-		mode, sh.name, kind, entryNames[entry], level, need, maxLevel, inScale, tgtScale, declare)
+	desc := fmt.Sprintf("bgv/%s %s kind=%d entry=%s level=%d(need %d, max %d) inScale=%d targetScale=%d declareParity=%v nilHoles=%v",
+		mode, sh.name, kind, entryNames[entry], level, need, maxLevel, inScale, tgtScale, declare, nilHoles)
 	c.Note("%s", desc)
 	sig := "C13/bgv-" + mode + "/" + entryNames[entry]
 	class := knownClass("bgv", sh, kind, entry, declare)
 	rep := reporter{c: c, class: class, dedicated: cfg.dedicated}
+	c.Cover("nilHoles", fmt.Sprint(nilHoles))
+	if nilHoles && kind < kVector0 && sh.mask != uint64(1)<<(sh.degree+1)-1 {
+		rep = reporter{c: c, class: classNilCoeff, dedicated: true}
+	}
 	if cfg.declareEach && sh.degree > 0 {
 		rep = reporter{c: c, class: classMixedDeclared, dedicated: true}
 	}
@@ -221,7 +226,17 @@ func bgvLeaf(c *engine.Chooser, scName string, cfg *bgvCfg) {
 
 	// ---- the object handed to the evaluator
 	mkBig := func(k int) bignum.Polynomial {
-		p := bignum.NewPolynomial(bignum.Monomial, coeffs[k], nil)
+		var cs interface{} = coeffs[k]
+		if nilHoles {
+			bc := make([]*bignum.Complex, len(coeffs[k]))
+			for i, v := range coeffs[k] {
+				if v != 0 {
+					bc[i] = bignum.ToComplex(v, 64)
+				}
+			}
+			cs = bc
+		}
+		p := bignum.NewPolynomial(bignum.Monomial, cs, nil)
 		if kind >= kVector0 && maps[kind-kVector0].declareEach {
 			switch k {
 			case 1:
